@@ -171,7 +171,7 @@ def check_pairing(rng, ndim, ki, ko):
     bad = []
     c1 = make_case(rng, ndim, ki, ko, 9, True)
     c2 = make_case(rng, ndim, ki, ko, 17, True, r=c1.r, t=c1.t)
-    for k in ("inner_data", "inner_data2", "outer_data", "outer_data2", "params", "film", "mat_k", "mat_a", "h"):
+    for k in ("inner_data", "inner_data2", "outer_data", "outer_data2", "params", "film", "mat_k", "mat_a", "h", "plane"):
         setattr(c2, k, getattr(c1, k))
     e1, s1, scale = steady_error(c1)
     e2, s2, _ = steady_error(c2)
